@@ -5,7 +5,7 @@
     hand-written model (Qib.Lattice.LatModel); the adjacency constructions themselves are the
     hand-written model, tied to the code by the exhaustive correspondence run.
     Part 2 states the property theorems about the regenerated functions. *)
-From Qib Require Import Lattice.LatModel Lattice.LatBase Lattice.LatInt Lattice.LatMisc Lattice.LatOfc Lattice.LatTri.
+From Qib Require Import Lattice.LatModel Lattice.LatBase Lattice.LatInt Lattice.LatMisc Lattice.LatOfc Lattice.LatTri Lattice.LatBrick Lattice.LatBrickAdj.
 From Run Require Import GenLattice.
 Local Open Scope Z_scope.
 
@@ -330,6 +330,156 @@ Proof.
   intros. rewrite br_ofc_edge. apply ofc_edge_to_face_spec; assumption.
 Qed.
 Print Assumptions C14_oddface_edge_to_face.
+
+(** ** BrickLattice / HexagonalLattice, both conventions ([up] = COLS_SHIFTED_UP), delete on/off.
+    [code_brick_adj] is the adjacency construction assembled from the regenerated pieces
+    (shape_square, d_square, parity_shift_condition, link filter, removed / zeroed positions). *)
+Definition code_brick_sq_pairs (up : bool) (s0 s1 : Z) : list ipair :=
+  let '(q0, q1) := gen_brick_shape_square up s0 s1 in
+  let '(dsq, psc) := gen_brick_dsq_psc up s0 s1 in
+  flat_map (fun d =>
+    flat_map (fun s =>
+      let ps := axis_pairs [q0; q1] false d s in
+      if Z.of_nat d =? dsq then ps else filter (fun p => gen_brick_keep_link psc q1 s (fst p)) ps) shifts)
+    (seq 0 2).
+Definition code_brick_adj (up del : bool) (s0 s1 : Z) : amat :=
+  let '(q0, q1) := gen_brick_shape_square up s0 s1 in
+  let a := (q0 * q1, code_brick_sq_pairs up s0 s1) in
+  if del then fold_left (fun a p => np_delete_rc p a) (gen_brick_delete_positions up s0 s1) a
+  else fold_left (fun a p => np_zero_rc p a) (gen_brick_disconnect_positions up s0 s1) a.
+
+Lemma br_brick_sq_pairs up s0 s1 : code_brick_sq_pairs up s0 s1 = brick_sq_pairs up s0 s1.
+Proof.
+  unfold code_brick_sq_pairs, brick_sq_pairs. rewrite br_shape_square, br_dsq_psc.
+  destruct (brick_sq up s0 s1) as [q0 q1].
+  apply flat_map_ext. intros d. apply flat_map_ext. intros s.
+  replace (Z.of_nat d =? Z.of_nat (brick_dsquare up)) with (Nat.eqb d (brick_dsquare up)).
+  - destruct (Nat.eqb d (brick_dsquare up)); [reflexivity|]. apply filter_ext. intros p. apply br_keep_link.
+  - destruct (Nat.eqb d (brick_dsquare up)) eqn:E; symmetry.
+    + apply Nat.eqb_eq in E. apply Z.eqb_eq. lia.
+    + apply Nat.eqb_neq in E. apply Z.eqb_neq. lia.
+Qed.
+
+Lemma br_brick_adj up del s0 s1 : code_brick_adj up del s0 s1 = brick_adj up del s0 s1.
+Proof.
+  unfold code_brick_adj, brick_adj, brick_delete_extra, brick_disconnect_extra.
+  rewrite br_shape_square, br_brick_sq_pairs, br_delpos, br_dispos. reflexivity.
+Qed.
+
+(** hexagonal index maps assembled from the regenerated pieces; a position is [k; 2y] (COLS_SHIFTED_UP,
+    x = k sqrt3/2) resp. [2x; k] (ROWS_SHIFTED_LEFT, y = k sqrt3/2) *)
+Definition code_hex_index_to_coord (up : bool) (s0 s1 i : Z) : option coord :=
+  match gen_brick_index_to_coord up true s0 s1 i with
+  | Some [r; c] => Some (gen_hex_pos up r c)
+  | _ => None
+  end.
+Definition code_hex_coord_to_index (up : bool) (s0 s1 a b : Z) : option (option Z) :=
+  match (if up then gen_hex_unpos_up a b else gen_hex_unpos_left a b) with
+  | Some (r, c) => gen_brick_coord_to_index up true s0 s1 r c
+  | None => None
+  end.
+Lemma br_hex_i2c up s0 s1 i : code_hex_index_to_coord up s0 s1 i = hex_index_to_coord up s0 s1 i.
+Proof.
+  unfold code_hex_index_to_coord, hex_index_to_coord. rewrite br_i2c.
+  destruct (brick_index_to_coord up true s0 s1 i) as [[|r [|c [|? ?]]]|]; try reflexivity. rewrite br_hex_pos. reflexivity.
+Qed.
+Lemma br_hex_c2i up s0 s1 a b : code_hex_coord_to_index up s0 s1 a b = hex_coord_to_index up s0 s1 a b.
+Proof.
+  unfold code_hex_coord_to_index, hex_coord_to_index. destruct up.
+  - rewrite br_hex_unpos_up. destruct (hex_unlong a b); cbn [option_map]; [apply br_c2i|reflexivity].
+  - rewrite br_hex_unpos_left. destruct (hex_unlong b a); cbn [option_map]; [apply br_c2i|reflexivity].
+Qed.
+
+Theorem C14_brick_index_maps_inverse :
+  forall up del s0 s1, 1 <= s0 -> 1 <= s1 ->
+    (forall i, 0 <= i < gen_brick_nsites up del s0 s1 ->
+       exists r c, gen_brick_index_to_coord up del s0 s1 i = Some [r; c] /\
+                   gen_brick_coord_to_index up del s0 s1 r c = Some (Some i)) /\
+    (forall i j p, 0 <= i < gen_brick_nsites up del s0 s1 -> 0 <= j < gen_brick_nsites up del s0 s1 ->
+       gen_brick_index_to_coord up del s0 s1 i = Some p -> gen_brick_index_to_coord up del s0 s1 j = Some p -> i = j).
+Proof.
+  intros up del s0 s1 H0 H1. split.
+  - intros i Hi. rewrite br_nsites in Hi. destruct (brick_roundtrip up del s0 s1 i H0 H1 Hi) as [r [c [E1 [E2 _]]]].
+    exists r, c. rewrite br_i2c, br_c2i. auto.
+  - intros i j p Hi Hj. rewrite br_nsites in Hi, Hj. rewrite !br_i2c. apply brick_coord_injective; assumption.
+Qed.
+Print Assumptions C14_brick_index_maps_inverse.
+
+Theorem C14_hexagonal_index_maps_inverse :
+  forall up s0 s1, 1 <= s0 -> 1 <= s1 ->
+    (forall i, 0 <= i < gen_hex_nsites s0 s1 ->
+       exists a b, code_hex_index_to_coord up s0 s1 i = Some [a; b] /\
+                   code_hex_coord_to_index up s0 s1 a b = Some (Some i)) /\
+    (forall i j p, 0 <= i < gen_hex_nsites s0 s1 -> 0 <= j < gen_hex_nsites s0 s1 ->
+       code_hex_index_to_coord up s0 s1 i = Some p -> code_hex_index_to_coord up s0 s1 j = Some p -> i = j).
+Proof.
+  intros up s0 s1 H0 H1. split.
+  - intros i Hi. rewrite br_hex_ns in Hi. destruct (hex_roundtrip up s0 s1 i H0 H1 Hi) as [a [b [E1 E2]]].
+    exists a, b. rewrite br_hex_i2c, br_hex_c2i. auto.
+  - intros i j p Hi Hj. rewrite br_hex_ns in Hi, Hj. rewrite !br_hex_i2c. apply hex_coord_injective; assumption.
+Qed.
+Print Assumptions C14_hexagonal_index_maps_inverse.
+
+(** HexagonalLattice (its matrix is that of BrickLattice(delete=True), checked by the translator):
+    ones exactly at Euclidean distance 1; hex_dist4 = 4 * squared distance *)
+Theorem C14_hexagonal_adjacency_is_unit_distance :
+  forall up s0 s1 i j p p', 1 <= s0 -> 1 <= s1 ->
+    0 <= i < gen_hex_nsites s0 s1 -> 0 <= j < gen_hex_nsites s0 s1 ->
+    code_hex_index_to_coord up s0 s1 i = Some p -> code_hex_index_to_coord up s0 s1 j = Some p' ->
+    (In (i, j) (snd (code_brick_adj up true s0 s1)) <-> hex_dist4 up p p' = 4).
+Proof.
+  intros up s0 s1 i j p p' H0 H1 Hi Hj Ei Ej. rewrite br_hex_ns in Hi, Hj. rewrite br_hex_i2c in Ei, Ej.
+  rewrite br_brick_adj. apply hex_adjacency_iff; assumption.
+Qed.
+Print Assumptions C14_hexagonal_adjacency_is_unit_distance.
+
+(** BrickLattice: the same graph on the square-grid coordinates -- two grid points are linked iff their
+    hexagonal positions are at distance 1 and neither is a surplus point (a point for which the
+    deleting variant has no index); with delete=True no site is surplus *)
+Theorem C14_brick_adjacency_is_the_hexagonal_graph :
+  forall up del s0 s1 i j r c r' c', 1 <= s0 -> 1 <= s1 ->
+    0 <= i < gen_brick_nsites up del s0 s1 -> 0 <= j < gen_brick_nsites up del s0 s1 ->
+    gen_brick_index_to_coord up del s0 s1 i = Some [r; c] -> gen_brick_index_to_coord up del s0 s1 j = Some [r'; c'] ->
+    (In (i, j) (snd (code_brick_adj up del s0 s1)) <->
+     hex_dist4 up (gen_hex_pos up r c) (gen_hex_pos up r' c') = 4 /\
+     gen_brick_coord_to_index up true s0 s1 r c <> Some None /\
+     gen_brick_coord_to_index up true s0 s1 r' c' <> Some None).
+Proof.
+  intros up del s0 s1 i j r c r' c' H0 H1 Hi Hj Ei Ej. rewrite br_nsites in Hi, Hj. rewrite br_i2c in Ei, Ej.
+  rewrite br_brick_adj, !br_hex_pos, !br_c2i, <- sq_nn_unit_distance.
+  apply brick_adjacency_iff; assumption.
+Qed.
+Print Assumptions C14_brick_adjacency_is_the_hexagonal_graph.
+
+Theorem C14_brick_adjacency_matrix_shape :
+  forall up del s0 s1, 1 <= s0 -> 1 <= s1 ->
+    fst (code_brick_adj up del s0 s1) = gen_brick_nsites up del s0 s1 /\
+    gen_brick_nsites up true s0 s1 = gen_hex_nsites s0 s1 /\
+    (forall i j, In (i, j) (snd (code_brick_adj up del s0 s1)) ->
+       0 <= i < gen_brick_nsites up del s0 s1 /\ 0 <= j < gen_brick_nsites up del s0 s1) /\
+    (forall i j, In (i, j) (snd (code_brick_adj up del s0 s1)) -> In (j, i) (snd (code_brick_adj up del s0 s1))) /\
+    (forall i, ~ In (i, i) (snd (code_brick_adj up del s0 s1))).
+Proof.
+  intros up del s0 s1 H0 H1. rewrite br_brick_adj, !br_nsites, br_hex_ns. split; [|split; [|split; [|split]]].
+  - apply brick_adj_size; assumption.
+  - reflexivity.
+  - intros i j. apply brick_adj_range; assumption.
+  - intros i j. apply brick_adjacency_symmetric; assumption.
+  - intros i. apply brick_adjacency_irreflexive; assumption.
+Qed.
+Print Assumptions C14_brick_adjacency_matrix_shape.
+
+(** the defects the proposed repairs remove, on the code as found (model with [guard = false]) *)
+Theorem C14_unrepaired_code_refuted :
+  In (0, 0) (int_pairs_g false [1; 3] [true; true]) /\
+  In (0, 8) (tri_pairs_g false [3; 3] [true; false]) /\ ~ nn_tri [3; 3] [true; false] [0; 0] [2; 2].
+Proof.
+  split; [exact int_unrepaired_selfloop|]. split; [exact (proj1 tri_unrepaired_wraps_open_axis)|].
+  intros H. apply (tri_pairs_nn [3; 3] [true; false] [0; 0] [2; 2]) in H;
+    [|cbn; lia|reflexivity|repeat constructor; lia|repeat constructor; lia].
+  exact (proj2 tri_unrepaired_wraps_open_axis H).
+Qed.
+Print Assumptions C14_unrepaired_code_refuted.
 
 (** the hypotheses are satisfiable on a non-trivial instance: a 2 x 3 x 2 lattice, middle axis periodic *)
 Example C14_instance :
